@@ -53,7 +53,8 @@ def run_cases(ctx, cases: Iterable[dict], *, sample_every: int = 1) -> None:
             ctx.inconclusive.append(f"harness error on case: {type(exc).__name__}: {exc!s:.300}")
             raise
         canon = (case.get("version"), case.get("metric", True), tuple(map(repr, case["steps"])),
-                 tuple(case.get("faults") or ()), tuple(case.get("fail19") or ()), case.get("tz"))
+                 tuple(case.get("faults") or ()), tuple(case.get("fail19") or ()), case.get("tz"),
+                 tuple(case.get("fail_reply_types") or ()), case.get("fail_reply_every"), case.get("fault_class"))
         ctx.case(canon, nontrivial=is_nontrivial(case, ls), sample=case if len(case["steps"]) <= 12 else
                  dict(case, steps=case["steps"][:12] + [["...", len(case["steps"]) - 12, "more steps"]]))
         for m in mismatches:
